@@ -24,7 +24,6 @@ use crate::pipeline;
 use crate::render::{exec_text, ts_text};
 use crate::report::{Args as RunArgs, Reporter, Violation, stats_json};
 use crate::rparse::parse_exec;
-use crate::rts::{Decl, T, Te, World, parse_module, show_t};
 use crate::schema::Sch;
 use crate::util::catch;
 use crate::valid_op;
@@ -43,18 +42,6 @@ use std::sync::atomic::{AtomicU64, Ordering};
 use std::time::Duration;
 
 // ------------------------------------------------------------------------------------------ routes
-
-/// what one route produced for (schema, one operation file)
-#[derive(Debug, Clone, Default)]
-pub struct Out {
-    /// None = accepted; Some(kinds) = rejected with these diagnostic kinds (stage:kind)
-    pub rejected: Option<Vec<String>>,
-    pub schema_dts: String,
-    pub resolvers_dts: String,
-    pub op_dts: String,
-    /// the `serverGraphqlOutput` module
-    pub server: String,
-}
 
 fn kinds(f: &pipeline::Failure) -> Vec<String> {
     f.diags.iter().map(|d| format!("{}:{}", d.stage, d.kind)).collect()
@@ -116,330 +103,7 @@ pub fn route_json(json_text: &str, op_text: &str, cfg: &Config, generate: bool) 
 
 // ------------------------------------------------------------------------------------------ comparing declaration files
 
-fn collect_exports(w: &World, scope: usize, prefix: &mut Vec<String>, out: &mut BTreeSet<Vec<String>>) {
-    for name in w.scopes[scope].exports.keys() {
-        let mut p = prefix.clone();
-        p.push(name.clone());
-        out.insert(p);
-    }
-    for (ns, id) in &w.scopes[scope].namespaces {
-        prefix.push(ns.clone());
-        collect_exports(w, *id, prefix, out);
-        prefix.pop();
-    }
-}
-
-pub fn load_world(schema: &str, resolvers: &str, op: &str) -> Result<World, String> {
-    let mut w = World::new();
-    w.load("schema", schema, &BTreeMap::new()).map_err(|e| format!("schema: {e}"))?;
-    let mut imports = BTreeMap::new();
-    imports.insert("./schema.js".to_string(), "schema".to_string());
-    imports.insert("./schema".to_string(), "schema".to_string());
-    if !resolvers.is_empty() {
-        w.load("resolvers", resolvers, &imports).map_err(|e| format!("resolvers: {e}"))?;
-    }
-    if !op.is_empty() {
-        w.load("op", op, &imports).map_err(|e| format!("op: {e}"))?;
-    }
-    Ok(w)
-}
-
-/// resolver table: "Type.field" -> canonical (Parent, Args, Result) / "Type.__resolveType" -> (Obj, Result)
-fn resolver_table(w: &World, text: &str) -> Result<BTreeMap<String, Vec<T>>, String> {
-    let decls = parse_module(text)?;
-    let mut out = BTreeMap::new();
-    let Some(Decl::Type { body: Te::Obj(types), .. }) = decls.iter().find(|d| matches!(d, Decl::Type { name, .. } if name == "Resolvers")) else {
-        return Err("no `Resolvers` object type".into());
-    };
-    let scope = w.modules["resolvers"];
-    for tp in types {
-        let Te::Obj(fields) = &tp.ty else {
-            out.insert(tp.key.clone(), vec![w.canon(&w.eval_in(scope, &tp.ty)?, 4)?]);
-            continue;
-        };
-        for f in fields {
-            let key = format!("{}.{}{}", tp.key, f.key, if f.optional { "?" } else { "" });
-            match &f.ty {
-                Te::Ref(path, args) if path.len() == 1 && path[0].starts_with("__") => {
-                    let mut v = vec![T::Lit(path[0].clone())];
-                    for (i, a) in args.iter().enumerate() {
-                        // the Context parameter is a type parameter of Resolvers
-                        if *a == Te::Ref(vec!["Context".into()], vec![]) {
-                            v.push(T::Opaque(format!("Context@{i}")));
-                        } else {
-                            v.push(w.canon(&w.eval_in(scope, a)?, 4)?);
-                        }
-                    }
-                    out.insert(key, v);
-                }
-                other => {
-                    out.insert(key, vec![w.canon(&w.eval_in(scope, other)?, 4)?]);
-                }
-            }
-        }
-    }
-    Ok(out)
-}
-
-/// value-level exports (enum runtime objects): name -> initializer
-fn value_table(text: &str) -> Result<BTreeMap<String, String>, String> {
-    let mut out = BTreeMap::new();
-    for d in parse_module(text)? {
-        if let Decl::Const { name, init, init_tpl, exported: true, .. } = d {
-            out.insert(name, format!("{}|{}", init.map(|j| j.to_string()).unwrap_or_default(), init_tpl.unwrap_or_default()));
-        }
-    }
-    Ok(out)
-}
-
-#[derive(Debug)]
-pub struct Diff {
-    pub key: String,
-    pub what: String,
-}
-
-fn kind_tag(sch: &Sch, name: &str) -> String {
-    match sch.kind(name) {
-        Some(k) => format!("{k:?}"),
-        None => "other".into(),
-    }
-}
-
-/// Compare what the two routes generated. `meta_listed`: the JSON lists the `__Schema` family, whose
-/// aliases the SDL route has no counterpart for (the SDL text cannot contain them: reserved names).
-pub fn compare_outputs(sch: &Sch, a: &Out, b: &Out) -> Result<(Vec<Diff>, u64), String> {
-    let wa = load_world(&a.schema_dts, &a.resolvers_dts, &a.op_dts).map_err(|e| format!("SDL-route output is not readable: {e}"))?;
-    let wb = match load_world(&b.schema_dts, &b.resolvers_dts, &b.op_dts) {
-        Ok(w) => w,
-        Err(e) => {
-            let module = e.split(':').next().unwrap_or("").to_string();
-            return Ok((vec![Diff { key: format!("json_route_malformed_ts:{module}"), what: format!("the JSON route's {module} declaration file is not well-formed while the SDL route's is: {e}") }], 0));
-        }
-    };
-    let mut diffs = vec![];
-    let mut compared = 0u64;
-    // names with no counterpart by construction: the __Schema family (reserved names, only the JSON
-    // lists them) and built-in scalars the schema never mentions (only the SDL route adds those)
-    let listed = crate::introspect::listed_builtin_scalars(sch);
-    let is_meta = |n: &str| n.starts_with("__") && crate::introspect::META_SDL.contains(&format!(" {n} {{"));
-    let unlisted_builtin = |n: &str| crate::schema::BUILTIN_SCALARS.contains(&n) && !listed.contains(&n);
-    for module in ["schema", "resolvers", "op"] {
-        let (Some(&sa), Some(&sb)) = (wa.modules.get(module), wb.modules.get(module)) else { continue };
-        let (mut ea, mut eb) = (BTreeSet::new(), BTreeSet::new());
-        collect_exports(&wa, sa, &mut vec![], &mut ea);
-        collect_exports(&wb, sb, &mut vec![], &mut eb);
-        for p in ea.symmetric_difference(&eb) {
-            if is_meta(p.last().unwrap()) || unlisted_builtin(p.last().unwrap()) {
-                continue;
-            }
-            let side = if ea.contains(p) { "sdl" } else { "json" };
-            diffs.push(Diff { key: format!("alias_only_in_{side}:{module}:{}", kind_tag(sch, p.last().unwrap())), what: format!("{module}: exported type {} exists only in the {side} route", p.join(".")) });
-        }
-        for p in ea.intersection(&eb) {
-            let path: Vec<&str> = p.iter().map(|s| s.as_str()).collect();
-            // generic aliases (the prelude's helpers, Resolvers<Context>) are compared as syntax
-            if let (Ok(T::Ref(s1, n1)), Ok(T::Ref(s2, n2))) = (wa.exported(module, &path), wb.exported(module, &path))
-                && let (Some((pa, ba)), Some((pb, bb))) = (wa.scopes[s1].types.get(&n1), wb.scopes[s2].types.get(&n2))
-                && (!pa.is_empty() || !pb.is_empty())
-            {
-                compared += 1;
-                let last = p.last().unwrap().as_str();
-                if last == "Resolvers" {
-                    // compared entry by entry below
-                } else if module == "resolvers" && pa.len() == 1 && pb.len() == 1 {
-                    // ResolverOutput<T extends "A" | "B" ...> = {A: A; ...}[T]: instantiate at every type name
-                    let names: Vec<String> = sch.order.iter().filter(|n| sch.kind(n) != Some(TsKind::Input)).cloned().chain(listed.iter().map(|s| s.to_string())).collect();
-                    for n in names {
-                        let app = Te::Ref(vec![last.to_string()], vec![Te::Lit(n.clone())]);
-                        let xa = wa.eval_in(sa, &app).and_then(|t| wa.canon(&t, 4));
-                        let xb = wb.eval_in(sb, &app).and_then(|t| wb.canon(&t, 4));
-                        compared += 1;
-                        match (xa, xb) {
-                            (Ok(x), Ok(y)) if x == y => {}
-                            (Ok(x), Ok(y)) => diffs.push(Diff { key: format!("resolver_output_differs:{}", kind_tag(sch, &n)), what: format!("{last}<\"{n}\"> is {} through SDL but {} through JSON", clip(&show_t(&x)), clip(&show_t(&y))) }),
-                            (Err(e), _) => return Err(format!("R-TS cannot evaluate {last}<\"{n}\"> of the SDL route: {e}")),
-                            (_, Err(e)) => diffs.push(Diff { key: format!("resolver_output_missing:{}", kind_tag(sch, &n)), what: format!("{last}<\"{n}\"> of the JSON route: {e}") }),
-                        }
-                    }
-                } else if pa != pb || ba != bb {
-                    diffs.push(Diff { key: format!("generic_alias_differs:{module}"), what: format!("{module}: generic alias {} is declared differently by the two routes", p.join(".")) });
-                }
-                continue;
-            }
-            let ta = wa.exported(module, &path).and_then(|t| wa.canon(&t, 4));
-            let tb = wb.exported(module, &path).and_then(|t| wb.canon(&t, 4));
-            compared += 1;
-            match (ta, tb) {
-                (Ok(x), Ok(y)) => {
-                    if x != y {
-                        let ns = if p.len() > 1 { p[0].clone() } else { "top".into() };
-                        diffs.push(Diff {
-                            key: format!("alias_differs:{module}:{ns}:{}", kind_tag(sch, p.last().unwrap())),
-                            what: format!("{module}: {} denotes {} through SDL but {} through introspection JSON", p.join("."), clip(&show_t(&x)), clip(&show_t(&y))),
-                        });
-                    }
-                }
-                (Err(e), _) => return Err(format!("R-TS cannot evaluate {} of the SDL route: {e}", p.join("."))),
-                (_, Err(e)) => diffs.push(Diff { key: format!("json_route_unevaluable:{module}"), what: format!("{module}: {} of the JSON route cannot be evaluated: {e}", p.join(".")) }),
-            }
-        }
-    }
-    // resolver entries (function types are opaque to the canonical form: compare their arguments)
-    if !a.resolvers_dts.is_empty() {
-        let ra = resolver_table(&wa, &a.resolvers_dts).map_err(|e| format!("resolver table of the SDL route: {e}"))?;
-        match resolver_table(&wb, &b.resolvers_dts) {
-            Err(e) => diffs.push(Diff { key: "json_route_unevaluable:resolvers".into(), what: format!("resolver table of the JSON route: {e}") }),
-            Ok(rb) => {
-                let (ka, kb): (BTreeSet<&String>, BTreeSet<&String>) = (ra.keys().collect(), rb.keys().collect());
-                for k in ka.symmetric_difference(&kb) {
-                    if is_meta(k.split('.').next().unwrap_or("")) {
-                        continue;
-                    }
-                    let side = if ka.contains(*k) { "sdl" } else { "json" };
-                    diffs.push(Diff { key: format!("resolver_only_in_{side}:{}", kind_tag(sch, k.split('.').next().unwrap_or(""))), what: format!("resolver entry {k} exists only in the {side} route") });
-                }
-                for k in ka.intersection(&kb) {
-                    compared += 1;
-                    if ra[*k] != rb[*k] {
-                        let which = ra[*k].iter().zip(rb[*k].iter()).position(|(x, y)| x != y).unwrap_or(0);
-                        let slot = ["kind", "parent", "args", "context", "result"].get(which).copied().unwrap_or("?");
-                        diffs.push(Diff {
-                            key: format!("resolver_differs:{slot}"),
-                            what: format!("resolver entry {k}: {slot} is {} through SDL but {} through JSON", clip(&ra[*k].get(which).map(show_t).unwrap_or_default()), clip(&rb[*k].get(which).map(show_t).unwrap_or_default())),
-                        });
-                    }
-                }
-            }
-        }
-    }
-    // runtime values of the schema module (emitSchemaRuntime)
-    let (va, vb) = (value_table(&a.schema_dts)?, value_table(&b.schema_dts).unwrap_or_default());
-    for k in va.keys().chain(vb.keys()).collect::<BTreeSet<_>>() {
-        if is_meta(k) {
-            continue;
-        }
-        compared += 1;
-        if va.get(k) != vb.get(k) {
-            diffs.push(Diff { key: "schema_runtime_value_differs".into(), what: format!("exported value {k}: {:?} through SDL, {:?} through JSON", va.get(k), vb.get(k)) });
-        }
-    }
-    if !a.server.is_empty() || !b.server.is_empty() {
-        compared += compare_server(sch, &a.server, &b.server, &mut diffs);
-    }
-    Ok((diffs, compared))
-}
-
-/// The schema a server would build from the emitted `serverGraphqlOutput` module, reduced to what
-/// introspection carries: type definitions with descriptions, fields, arguments (default values by
-/// presence only), members, values, interfaces; the root operation types; directive definitions.
-/// Directive applications are dropped (introspection does not carry them).
-fn server_model(module: &str) -> Result<(BTreeMap<(TsKind, String), TsDef>, [Option<String>; 3]), String> {
-    let decls = parse_module(module)?;
-    let raw = decls
-        .iter()
-        .find_map(|d| match d {
-            Decl::Const { name, init_tpl: Some(t), exported: true, .. } if name == "schema" => Some(t.clone()),
-            _ => None,
-        })
-        .ok_or("no `export const schema = `...``")?;
-    let sdl = crate::c16::eval_template(&raw)?;
-    let doc = crate::rparse::parse_ts(&sdl).map_err(|e| format!("{e:?}"))?;
-    let sch = Sch::from_doc(&doc)?;
-    let roots = [sch.root(OpKind::Query), sch.root(OpKind::Mutation), sch.root(OpKind::Subscription)];
-    let mut m = BTreeMap::new();
-    let strip_iv = |v: &mut InputValueDef| {
-        v.dirs.clear();
-        if v.default.is_some() {
-            v.default = Some(Value::Null(P::default()));
-        }
-    };
-    for d in crate::schema::merge_extensions(&doc)? {
-        let mut d = d;
-        if d.kind == TsKind::Schema {
-            continue;
-        }
-        d.dirs.clear();
-        for f in d.fields.iter_mut() {
-            f.dirs.clear();
-            f.args.iter_mut().flatten().for_each(strip_iv);
-            if f.args.as_ref().is_some_and(|a| a.is_empty()) {
-                f.args = None;
-            }
-        }
-        d.input_fields.iter_mut().for_each(strip_iv);
-        d.dir_args.iter_mut().flatten().for_each(strip_iv);
-        if d.dir_args.as_ref().is_some_and(|a| a.is_empty()) {
-            d.dir_args = None;
-        }
-        d.values.iter_mut().for_each(|v| v.dirs.clear());
-        m.insert((d.kind, d.name_str().to_string()), d);
-    }
-    Ok((m, roots))
-}
-
-fn compare_server(sch: &Sch, a: &str, b: &str, diffs: &mut Vec<Diff>) -> u64 {
-    let Ok((ma, ra)) = server_model(a) else {
-        return 0; // the SDL route's module being unreadable is C16's subject
-    };
-    let (mb, rb) = match server_model(b) {
-        Ok(x) => x,
-        Err(e) => {
-            diffs.push(Diff { key: "server_schema:json_route_unreadable".into(), what: format!("the server schema module of the JSON route cannot be read back while the SDL route's can: {e}") });
-            return 0;
-        }
-    };
-    let mut n = 1;
-    if ra != rb {
-        diffs.push(Diff { key: "server_schema:root_types_differ".into(), what: format!("server schema: root operation types are {ra:?} through SDL but {rb:?} through JSON") });
-    }
-    let is_meta = |n: &str| n.starts_with("__") && crate::introspect::META_SDL.contains(&format!(" {n} {{"));
-    for k in ma.keys().chain(mb.keys()).collect::<BTreeSet<_>>() {
-        if is_meta(&k.1) || (k.0 == TsKind::Scalar && crate::schema::BUILTIN_SCALARS.contains(&k.1.as_str())) {
-            continue;
-        }
-        n += 1;
-        let kind = if k.0 == TsKind::Directive { "Directive".to_string() } else { kind_tag(sch, &k.1) };
-        match (ma.get(k), mb.get(k)) {
-            (Some(x), Some(y)) => {
-                if x != y {
-                    diffs.push(Diff { key: format!("server_schema:definition_differs:{kind}:{}", first_diff_field(x, y)), what: format!("server schema: {} {} differs at {}: {}", k.0.kw(), k.1, first_diff_field(x, y), crate::gql::first_diff_path(x, y)) });
-                }
-            }
-            (Some(_), None) => diffs.push(Diff { key: format!("server_schema:definition_only_in_sdl:{kind}"), what: format!("server schema: {} {} is emitted only by the SDL route", k.0.kw(), k.1) }),
-            (None, Some(_)) => diffs.push(Diff { key: format!("server_schema:definition_only_in_json:{kind}"), what: format!("server schema: {} {} is emitted only by the JSON route", k.0.kw(), k.1) }),
-            (None, None) => {}
-        }
-    }
-    n
-}
-
-fn first_diff_field(x: &TsDef, y: &TsDef) -> &'static str {
-    if x.desc != y.desc {
-        "description"
-    } else if x.implements != y.implements {
-        "implements"
-    } else if x.fields != y.fields {
-        "fields"
-    } else if x.members != y.members {
-        "members"
-    } else if x.values != y.values {
-        "values"
-    } else if x.input_fields != y.input_fields {
-        "input_fields"
-    } else if x.dir_args != y.dir_args {
-        "arguments"
-    } else if x.locations != y.locations {
-        "locations"
-    } else if x.repeatable != y.repeatable {
-        "repeatable"
-    } else {
-        "other"
-    }
-}
-
-fn clip(s: &str) -> String {
-    if s.chars().count() > 400 { format!("{}…", s.chars().take(400).collect::<String>()) } else { s.to_string() }
-}
+pub use crate::outcmp::{Diff, Out, compare_outputs};
 
 // ------------------------------------------------------------------------------------------ part 1: verdicts over SEM_SCHEMA
 
